@@ -16,9 +16,11 @@ CONSTANTS Family,      \* name of the program family
 
 VARIABLE vm
 
-\* primitive results for the fixed crypto inputs used by some families
-MCHint == IF "MC_HINT_FILE" \in DOMAIN IOEnv
-          THEN [NoHint EXCEPT !.prim = JsonDeserialize(IOEnv.MC_HINT_FILE)] ELSE NoHint
+\* data prepared by the harness for families that use cryptographic instructions on fixed
+\* inputs: primitive results (prim) and the probe programs of family "cfg" (probes)
+MCData == IF "MC_HINT_FILE" \in DOMAIN IOEnv THEN JsonDeserialize(IOEnv.MC_HINT_FILE)
+          ELSE [prim |-> <<>>, probes |-> <<>>, sc |-> <<>>, now |-> <<>>, contracts |-> <<>>]
+MCHint == [NoHint EXCEPT !.prim = MCData.prim]
 
 ----------------------------------------------------------------------------
 \* instruction atoms
@@ -116,6 +118,27 @@ NopProgs(z) == { Pushes(d) \o <<c, n>> \o Mk(1) : d \in 0..3, c \in NOps..255, n
 NopCfg(s) == [BaseCfg EXCEPT !.scripts = <<s>>, !.hist = TRUE]
 
 ----------------------------------------------------------------------------
+\* Family "cfg": a probe instruction sequence inside every nesting of constructs, under
+\* embedder configurations that switch the probed behaviour on / off (C09).  A probe
+\* record (from the harness): [code, flags (list of <<key, value>> settings to try),
+\* msib, mroot (sibling commitment and root for MERKLEVAL), tpk, troot (TAPROOT)]
+CWrap(b) == { T \o IFB(b), T \o IFELSE(b, <<>>), F \o IFELSE(<<>>, b), TRY(b, <<>>), TRY(RAISE, b),
+              T \o LOOP(b \o F), DEFN(0, b) \o CALL(0), IPush(b) \o EVAL }
+RECURSIVE CNest(_, _)
+CNest(S, k) == IF k = 0 THEN S ELSE CNest(UNION {CWrap(b) : b \in S}, k - 1)
+Inner(pr) == { pr.code,
+               IPush(pr.msib) \o IPush(pr.code) \o <<60>> \o pr.mroot,            \* MERKLEVAL
+               IPush(pr.code) \o IPush(pr.tpk) \o IPush(pr.troot) \o <<91, 0>> }  \* TAPROOT script path
+CfgProgs(pr) == UNION { CNest(Inner(pr), k) : k \in 0..Bound }
+                \cup { w \o pr.code : w \in CWrap(Mk(3)) }                       \* probe after a construct
+FlagsOf(setting) == [k \in {setting[i][1] : i \in 1..Len(setting)} |->
+                        setting[CHOOSE i \in 1..Len(setting) : setting[i][1] = k][2]]
+CfgCfg(s, setting, nsig) ==
+    [BaseCfg EXCEPT !.scripts = <<s>>, !.hist = TRUE, !.flags = FlagsOf(setting), !.nsig = nsig,
+                    !.sc = MCData.sc, !.now = MCData.now, !.callLimit = 8,
+                    !.contracts = {MCData.contracts[i] : i \in 1..Len(MCData.contracts)}]
+
+----------------------------------------------------------------------------
 \* configurations of the chosen family, as a sequence so that they can be sharded
 Configs(z) ==
     CASE Family = "ctl"    -> { CtlCfg(s) : s \in CtlScripts(0) }
@@ -127,6 +150,9 @@ Configs(z) ==
       [] Family = "limits" -> { LimCfg(s, lim) : s \in Progs(ResAtoms(0), Bound), lim \in LimTriples }
       [] Family = "cache"  -> { CacheCfg(s, r0) : s \in Progs(CacheAtoms(0), Bound), r0 \in {FALSE} }
       [] Family = "nop"    -> { NopCfg(s) : s \in NopProgs(0) }
+      [] Family = "cfg"    -> UNION { { CfgCfg(s, MCData.probes[i].flags[j], nsig) :
+                                          s \in CfgProgs(MCData.probes[i]), j \in 1..Len(MCData.probes[i].flags), nsig \in {0, 2} }
+                                      : i \in 1..Len(MCData.probes) }
 
 Init == \E c \in Configs(0) : vm = InitVM(c)
 Next == vm.status = "run" /\ vm' = Step(vm, MCHint)
@@ -137,6 +163,8 @@ BcSeq(bc) == SetToSeq({<<k, bc[k].l, bc[k].v>> : k \in DOMAIN bc})
 Summary(v) == [scripts |-> v.cfg.scripts, auth |-> v.cfg.auth,
                lim |-> <<v.cfg.maxItems, v.cfg.maxItemSize, v.cfg.callLimit>>,
                ret0 |-> v.cfg.ret0, sc |-> v.cfg.sc, now |-> v.cfg.now,
+               flags |-> SetToSeq({<<k, v.cfg.flags[k]>> : k \in DOMAIN v.cfg.flags}), nsig |-> v.cfg.nsig,
+               contracts |-> SetToSeq(v.cfg.contracts),
                stack |-> v.stack, bc |-> BcSeq(v.bc), status |-> v.status, exc |-> v.exc,
                verdict |-> Verdict(v), ret |-> v.ret, hist |-> v.obs.hist, plug |-> v.obs.plug]
 
@@ -176,6 +204,32 @@ InvAllScriptsRan == (vm.status = "done" /\ vm.cfg.auth) => vm.sidx = Len(vm.cfg.
 
 \* C08: the embedder's configuration (string-keyed cache included) never changes
 CfgFrozen == [][vm'.cfg = vm.cfg]_vm
+
+\* C09: a flag table changes only when a flag instruction executes or when run_tape
+\* (re)initialises the table of the tape it enters
+FlagsOnlyByFlagOps ==
+    [][ \A i \in 1..Len(vm.fheap) :
+          vm'.fheap[i] # vm.fheap[i] =>
+             \/ (StepKind(vm) = "exec" /\ vm'.obs.flagops = vm.obs.flagops + 1 /\ i = TT(vm).fid)
+             \/ (Len(vm'.frames) >= 1 /\ vm'.frames # vm.frames /\ i = TT(vm').fid) ]_vm
+\* C09: as long as no flag instruction has executed, every running tape sees exactly the
+\* embedder's settings on top of the defaults
+InvEmbedderFlags ==
+    (vm.status = "run" /\ vm.obs.flagops = 0 /\ ~vm.cfg.auth) =>
+        \A i \in 1..Len(vm.frames) :
+            LET tbl == vm.fheap[vm.tapes[vm.frames[i].tid].fid] IN
+            \A k \in DOMAIN vm.cfg.flags : k \in DOMAIN tbl /\ tbl[k] = vm.cfg.flags[k]
+\* C09: signature-extension plugins run exactly once before each signature-related instruction
+SigOps == {5, 35, 36, 70, 71, 72, 89, 90}
+PluginOnce ==
+    [][ LET d == vm'.obs.plug - vm.obs.plug IN
+        IF vm.status = "run" /\ StepKind(vm) = "exec"
+        THEN LET t == TT(vm) op == t.code[t.pc + 1] IN
+             IF op \in {5, 35, 36, 70, 71, 72} THEN d = vm.cfg.nsig
+             ELSE IF op \in {89, 90} THEN d = (IF FlagOn(Flags(vm), FInt(10)) \/ FInt(10) \notin DOMAIN Flags(vm) THEN vm.cfg.nsig ELSE 0)
+             ELSE IF op = 91 THEN d \in {0, vm.cfg.nsig}
+             ELSE d = 0
+        ELSE d = 0 ]_vm
 
 \* C20: an unassigned opcode removes `count` items and has no other effect
 NopExact ==
